@@ -124,7 +124,7 @@ def run(ctx):
         rd = H.real_deserialize(direction, rb)
         if md != rd:
             res.disagreements.append({"stream": "msg.deserialize", "input": {"dir": direction, "b": rb[:200]},
-                                      "model": str(md)[:500], "code": str(rd)[:500]})
+                                      "model": H.brief(md), "code": H.brief(rd)})
         # oracle on the real code: deserialize(bytes(m)) == m
         if rd != {"m": mj}:
             diff = None
@@ -133,7 +133,7 @@ def run(ctx):
             res.failures.append({"what": "deserialize(bytes(m)) != m", "kf": None,
                                  "input": {"dir": direction, "decoder_calls_before": order_before,
                                            "m": mj if len(key) < 2000 else tag,
-                                           "got": str(rd)[:600], "first_differences": diff}})
+                                           "got": H.brief(rd), "first_differences": diff}})
         if len(res.samples) < 5 and res.evaluations % 61 == 0 and len(key) < 300:
             res.samples.append({"dir": direction, "m": mj, "bytes": rb})
 
@@ -269,7 +269,10 @@ def run(ctx):
         for _k in range(n):
             tag = rng.choice([0, 1, 1, 0, 2, 255, rng.randrange(256)])
             body += [tag] + [rng.randrange(256) for _ in range(3)] + [rng.randrange(256) for _ in range(4)]
-        ln = rng.choice([n, n, n, n + 1, n - 1 if n else 0, -1, -n, 2 ** 31 - 1, -2 ** 31, 2 ** 28])
+        # length fields are kept small in this process (a decoder that trusts LENGTH allocates that much);
+        # the huge ones go to the memory-limited subprocess below
+        ln = rng.choice([n, n, n, n + 1, n + 2, n - 1 if n else 0, -1, -n, 17, 1000, H.ARRAY_LEN_CAP,
+                         rng.randrange(H.ARRAY_LEN_CAP), -2 ** 31])
         hdr = list((rng.randrange(2 ** 32)).to_bytes(4, "little")) + list((ln & 0xFFFFFFFF).to_bytes(4, "little"))
         raw = [2] + hdr + body
         if rng.random() < 0.2:
@@ -281,14 +284,38 @@ def run(ctx):
         if raw and rng.random() < 0.7:
             raw[0] = rng.randrange(5)
         mal.append((rng.choice(["host", "ret"]), raw, "random-bytes"))
+    # huge declared lengths with a short payload: one guarded probe batch
+    for ln in [2 ** 31 - 1, 2 ** 28, 2 ** 24, 100000, H.ARRAY_LEN_CAP + 1]:
+        for n in (0, 1, 3):
+            body = []
+            for _k in range(n):
+                body += [rng.choice([0, 1])] + [0, 0, 0] + [rng.randrange(256) for _ in range(4)]
+            mal.append(("ret", [2] + list((7).to_bytes(4, "little")) + list(ln.to_bytes(4, "little")) + body,
+                        "huge-declared-length"))
+    isolate = [k for k, (d, b, _) in enumerate(mal) if H.must_isolate(d, b)]
+    iso_out = dict(zip(isolate, H.isolated_decode([(mal[k][0], mal[k][1]) for k in isolate])))
     mo = ctx.driver.batch([{"op": "msg.deshost" if d == "host" else "msg.desret", "b": b} for d, b, _ in mal])
-    for (direction, raw, tag), md in zip(mal, mo):
+    for k, ((direction, raw, tag), md) in enumerate(zip(mal, mo)):
         res.evaluations += 1
-        rd = H.real_deserialize(direction, raw)
-        res.count("malformed:" + tag + (":error" if "err" in rd else ":decodes"))
+        isolated = k in iso_out
+        rd = iso_out[k] if isolated else H.real_deserialize(direction, raw)
+        res.count("malformed:" + tag + (":isolated" if isolated else "") +
+                  (":error" if "m" not in rd else ":decodes"))
         res.nontrivial.add((direction, bytes(raw)))
-        if rd != md:
+        decl = H.declared_array_length(direction, raw)
+        # model-free: LENGTH entries follow the header; a decoder must not accept (let alone allocate for)
+        # a message whose declared length exceeds what its payload carries
+        if decl is not None and decl[0] > decl[1] and ("m" in rd or rd.get("err") == "MemoryError" or "died" in rd):
+            res.failures.append({"what": "the decoder accepted (or exhausted memory on) a returned-array message "
+                                         "whose declared length exceeds its payload", "kf": None,
+                                 "input": {"dir": direction, "bytes": raw[:80], "declared_length": decl[0],
+                                           "entries_in_payload": decl[1], "result": H.brief(rd)}})
+        if isolated:
+            same = ("err" in rd and "err" in md and rd["err"] == md["err"])
+        else:
+            same = rd == md
+        if not same:
             res.disagreements.append({"stream": "msg.deserialize-malformed",
-                                      "input": {"dir": direction, "b": raw, "kind": tag},
-                                      "model": str(md)[:400], "code": str(rd)[:400]})
+                                      "input": {"dir": direction, "b": raw[:80], "kind": tag},
+                                      "model": H.brief(md), "code": H.brief(rd)})
     return res
